@@ -429,7 +429,7 @@ def normalize(got, want, runstate=None):
             # If removing quotes would allow for a match, remove them.
             if not _check_match(a, b, runstate):
                 for q in ['"', "'"]:
-                    if a.startswith(q) and a.endswith(q):
+                    if len(a) >= 2 and a.startswith(q) and a.endswith(q):
                         if _check_match(a[1:-1], b, runstate):
                             return a[1:-1]
             return a
